@@ -41,6 +41,8 @@ static uint32_t got[3];
 static int zero_calls[3];
 static int data_after_zero[3];
 static int fail_at = -1, fail_value;
+static int64_t g_deadline_abs; /* 0 = none */
+static int late_chunks;
 static int bad_bytes;
 static int calls_after_error;
 static int error_returned;
@@ -82,6 +84,7 @@ static int rec_sink(REPROC_STREAM stream, const uint8_t *buffer, size_t size, vo
     if (size == 0) zero_calls[s]++;
     else {
       if (zero_calls[s]) data_after_zero[s]++;
+      if (g_deadline_abs && vk_now() >= g_deadline_abs) late_chunks++;
       for (size_t i = 0; i < size; i++) {
         uint8_t e;
         if (!CH || !expected_byte(s, got[s] + (uint32_t) i, &e) || e != buffer[i]) { bad_bytes++; break; }
@@ -101,7 +104,7 @@ static void c16_hang(const char *where)
   vk_violation("C16", "unexpected-hang", key, "blocked forever in %s (child state %d, step %d of %d)", where, CH ? CH->state : -1, CH ? CH->pos : -1, CH ? CH->nsteps : -1);
 }
 
-struct dcfg { int script, size, em, sm, failk, deadline, api, realloc_fault, prefail; };
+struct dcfg { int script, size, em, sm, failk, deadline, api, realloc_fault, prefail, late; };
 
 static int is_interleaving(const char *s, size_t n, uint32_t n1, uint32_t n2)
 {
@@ -143,7 +146,7 @@ static void body(const struct dcfg *c, int tier)
     vk_cfg.fault_calls = 1ull << C_REALLOC;
   }
   snprintf(key, sizeof key, "h_c16|%s|script=%s|size=%d|stderr=%s|sink=%s@%d|deadline=%d|%s", c->api ? "run_ex" : "drain", d_scripts[c->script], c->size,
-           em_names[c->em], sm_names[c->sm], c->failk, c->deadline, c->realloc_fault ? "realloc-faults" : c->prefail ? "after-failed-start-with-deadline" : "no-faults");
+           em_names[c->em], sm_names[c->sm], c->failk, c->deadline, c->realloc_fault ? "realloc-faults" : c->prefail ? "after-failed-start-with-deadline" : c->late ? "drain-called-after-the-deadline" : "no-faults");
   hx_desc("%s", key);
   snprintf(key, sizeof key, "h_c16|%s|stderr=%s|sink=%s%s", c->api ? "run_ex" : "drain", em_names[c->em], sm_names[c->sm], c->prefail ? "|second-start" : "");
   hx_begin();
@@ -154,6 +157,8 @@ static void body(const struct dcfg *c, int tier)
   memset(zero_calls, 0, sizeof zero_calls);
   memset(data_after_zero, 0, sizeof data_after_zero);
   bad_bytes = calls_after_error = error_returned = 0;
+  g_deadline_abs = 0;
+  late_chunks = 0;
   fail_at = -1;
   em = c->em;
   merged = em == EM_MERGED;
@@ -207,6 +212,14 @@ static void body(const struct dcfg *c, int tier)
       int f = ident_parent_fd_for_stream(CH, i);
       if (f >= 0) fcntl(f, F_SETPIPE_SZ, CAP);
     }
+    if (c->deadline) g_deadline_abs = t0 + c->deadline;
+    if (c->late) {
+      /* the caller gets round to draining only after the deadline, with output already waiting in the pipe */
+      vk_cfg.sched_on = 0;
+      if (CH->state == CH_RUNNING && vk_child_enabled(CH)) vk_child_step(CH);
+      vk_cfg.sched_on = 1;
+      vk_advance(c->deadline + 1);
+    }
     vk_faults_armed = 1;
     hx_last_api = vk_api_begin("drain()");
     r = reproc_drain(p, so, se);
@@ -232,6 +245,9 @@ static void body(const struct dcfg *c, int tier)
 
   int out_pipe = 1, err_pipe = em == EM_PIPE;
   int64_t D = c->deadline ? t0 + c->deadline : INT64_MAX;
+  if (late_chunks && c->api == API_DRAIN)
+    vk_violation("C16", "no-chunk-after-deadline", key, "%d chunk(s) were handed to a sink after the deadline had expired (an expired deadline yields the timeout error, nothing else)", late_chunks);
+  if (c->late && r != REPROC_ETIMEDOUT) vk_violation("C16", "deadline-yields-timeout", key, "drain was called after the deadline had expired and returned %s", hx_errname(r));
   /* whatever drain is waiting in, it must not still be waiting there once the deadline has passed */
   if (c->deadline) {
     for (int i = 0; i < S->nevents; i++) {
@@ -386,9 +402,10 @@ static void build(void)
                   if (!tier && size > CAP && (sm == SM_FAILNEG || sm == SM_FAILPOS) && k > 2) continue;
                   for (int rf = 0; rf < (sm >= SM_STR_NULL ? 2 : 1); rf++) {
                     if (rf && size > CAP + 1) continue; /* growth steps of large strings are the same code path */
-                    struct dcfg c = { sc, size, e, sm, k, deadline, api, rf, 0 };
+                    struct dcfg c = { sc, size, e, sm, k, deadline, api, rf, 0, 0 };
                     store[tier][n++] = c;
-                    if (sm == SM_REC && !deadline && api == API_DRAIN && size <= 1 && !rf) { c.prefail = 1; store[tier][n++] = c; }
+                    if (sm == SM_REC && !deadline && api == API_DRAIN && size <= 1 && !rf) { c.prefail = 1; store[tier][n++] = c; c.prefail = 0; }
+                    if (sm == SM_REC && deadline && api == API_DRAIN && size >= 1 && size <= CAP && !rf && has_size) { c.late = 1; store[tier][n++] = c; }
                   }
                 }
           }
